@@ -77,6 +77,11 @@ type Violation struct {
 	Msg       string
 	Step      int
 	TapePos   int
+	// Unconfirmed: the harness saw it once and could not see it again when it re-executed the
+	// tape in this process (a report of an observer such as the race detector, which can hinge
+	// on state a process has only once). The worker confirms it in fresh processes; what does
+	// not reproduce there either is counted and dropped.
+	Unconfirmed bool
 }
 
 type counter struct {
@@ -887,7 +892,7 @@ func Violate(property, class, signature, msg string) {
 	raceOff()
 	s.mu.Lock()
 	if len(s.viol) < cap(s.viol) {
-		s.viol = append(s.viol, Violation{property, class, signature, msg, s.steps, s.tape.pos})
+		s.viol = append(s.viol, Violation{property, class, signature, msg, s.steps, s.tape.pos, false})
 	}
 	s.nviol++
 	s.mu.Unlock()
